@@ -467,14 +467,16 @@ func checkC07(ir *inboundRun) (pauses int) {
 		}
 		// A stop takes the owed acknowledgement of an earlier generation with
 		// it; then the one after the message's first return counts.
+		// The reference broker may reuse an identifier as soon as it is
+		// acknowledged. A second acknowledgement owed for a redelivery of
+		// the identifier's previous holder then counts, at the broker, for
+		// this message: it stops retransmitting, and what the stopped
+		// process owed is gone for good. So for an earlier generation any
+		// acknowledgement of the identifier since the broker first sent the
+		// message counts.
 		after := rt.r
 		if rt.gen != ir.gen {
-			for _, first := range rets {
-				if first.m == rt.m {
-					after = first.r
-					break
-				}
-			}
+			after = rt.m.SentSeq
 		}
 		okAck := false
 		for _, a := range acks {
